@@ -359,6 +359,11 @@ def run_mozpath(chk, model):
             if segs[j] == "a.b" and not has_ss:
                 cases.append(("/".join(parts[:k] + ["a", "b"] + parts[k + 1:]), pat, False, "meta-near-miss"))
             chk.hist("mozpath_meta", segs[j])
+        if segs[-1] == "**" and len(segs) >= 2 and "*" not in segs[-2] and \
+                not any(a == "**" and b == "**" for a, b in zip(segs, segs[1:])):
+            # dir/** : a sibling whose name merely starts with the directory name is not below it
+            k = sum(len(f) for f in fill[:-1])
+            cases.append(("/".join(parts[:k]) + rng.choice(["x", "baz", "-2"]), pat, False, "sibling-of-dir"))
         if "*" not in segs[-1] and not has_ss:
             # the last component must match whole: foo/b does not match foo/bar
             cases.append((path + "x", pat, False, "extended-last"))
@@ -369,7 +374,9 @@ def run_mozpath(chk, model):
     cases += [("foo", "*", True, "doc"), ("foo", "f*", True, "doc"), ("foo", "fo*o", True, "doc"),
               ("foo/bar", "foo/*/bar", False, "doc"), ("foo/bar", "foo", True, "doc"),
               ("foo/bar", "foo/**/bar", True, "doc"), ("foo/bar", "**/bar", True, "doc"),
-              ("foo", "", True, "doc"), ("foo\n", "foo", None, "newline")]
+              ("foo", "", True, "doc"), ("foo\n", "foo", None, "newline"),
+              ("ab", "a/**", False, "sibling-of-dir"), ("foo/barbaz", "foo/bar/**", False, "sibling-of-dir"),
+              ("a/b", "a/**", True, "below-dir"), ("foo/bar/x/y", "foo/bar/**", True, "below-dir")]
     impl, reqs, gpats = [], [], []
     for path, pat, want, kind in cases:
         try:
@@ -462,6 +469,7 @@ def run(chk, runner_ok):
     run_views(chk, model, [ml.gen_case(rng, loose=True) for _ in range(chk.n(1500, 10000))], "VIEWS-loose")
     ml.run_stateful(chk, model, chk.n(500, 5000))
     run_adjacent(chk, model)
+    ml.run_unbound_empty(chk, model, chk.n(200, 2000))
     ml.run_wild_first(chk, model, chk.n(150, 1500))
     ml.run_equality(chk, model, chk.n(600, 6000))
     run_expand(chk, model)
